@@ -5,6 +5,7 @@ Part 1: state, obligations and the expression evaluator (shared by code and
 contract text)."""
 from __future__ import annotations
 import ast
+import os
 import z3
 from z3 import And, Or, Not, Implies, If, ForAll, Exists, Select, Store, IntVal, BoolVal
 
@@ -1308,13 +1309,26 @@ class Engine:
                 self.assign_to(ev, basenode, V(base.ty, Store(base.t, E(0).t, False)), path)
                 return NONE
             if meth in ('update', 'union', 'intersection', 'difference', 'difference_update'):
-                o = self.to_set(E(0))
+                o = E(0)
+                if isinstance(o, V) and o.ty[0] == 'seq' and not spec and ev.is_closed(o.t):
+                    o = ev.named_set_of_seq(o, path)
+                o = self.to_set(o)
                 if meth in ('update', 'union'):
                     r = V(base.ty, z3.Lambda([x], Or(Select(base.t, x), Select(o.t, x))))
                 elif meth == 'intersection':
                     r = V(base.ty, z3.Lambda([x], And(Select(base.t, x), Select(o.t, x))))
                 else:
                     r = V(base.ty, z3.Lambda([x], And(Select(base.t, x), Not(Select(o.t, x)))))
+                if not spec and ev.qdepth == 0:
+                    # name the result (keeps later terms small and gives e-matching a constant to work with)
+                    sc = z3.FreshConst(S.sort_of(base.ty), 'setop')
+                    body_ = Select(sc, x) == (Or(Select(base.t, x), Select(o.t, x)) if meth in ('update', 'union') else
+                                              And(Select(base.t, x), Select(o.t, x)) if meth == 'intersection' else
+                                              And(Select(base.t, x), Not(Select(o.t, x))))
+                    # triggers in every direction: the named result and both operands
+                    for pat in (Select(sc, x), Select(base.t, x), Select(o.t, x)):
+                        path.hyps.append(S.forall_p([x], body_, [pat]))
+                    r = V(base.ty, sc)
                 if meth in ('update', 'difference_update'):
                     self.assign_to(ev, basenode, r, path)
                     return NONE
@@ -1869,7 +1883,7 @@ class Engine:
             if isinstance(val, tuple) and val[0] in ('emptyseq', 'emptyset', 'emptydict'):
                 val = self.typed_empty(tname, None)
         if isinstance(val, V) and tname is not None and val.ty[0] in ('seq', 'block', 'dict') \
-                and not z3.is_const(val.t) and self.term_size(val.t) > 3:
+                and not z3.is_const(val.t) and self.term_size(val.t) > int(os.environ.get('PYVC_LET', '3')):
             # let-abstraction: name a large term (keeps later formulas and patterns small)
             c = S.fresh(val.ty, 'let_' + tname)
             path.hyps.append(c.t == val.t)
@@ -2207,9 +2221,20 @@ class Engine:
                         vals, _ = self.bind_args(c, it_node, ev, path, False, fv[1])
                         itv = Evaluator(self, q.split(':')[0]).ev(ast.parse(c.yields, mode='eval').body, Path(dict(vals), path.hyps), True)
             if itv is None:
-                qt, bind, dom = ev.domain_of(ast.comprehension(target=st.target, iter=it_node, ifs=[]), path, False)
-                if qt == T_INT and not (isinstance(it_node, ast.Call) and isinstance(it_node.func, ast.Attribute)):
+                it_once = it_node
+                if not (isinstance(it_node, ast.Call) and isinstance(it_node.func, ast.Attribute) and it_node.func.attr in ('items', 'keys', 'values')):
+                    # evaluate the iterated expression exactly once and give it a name
                     c0 = ev.ev(it_node, path, False)
+                    if isinstance(c0, V) and c0.ty[0] == 'seq' and not z3.is_const(c0.t):
+                        cst = S.fresh(c0.ty, 'iter')
+                        path.hyps.append(cst.t == c0.t)
+                        c0 = cst
+                    if isinstance(c0, (V, VObj)):
+                        path.env['__it%d' % id(st)] = c0
+                        it_once = ast.Name(id='__it%d' % id(st), ctx=ast.Load())
+                qt, bind, dom = ev.domain_of(ast.comprehension(target=st.target, iter=it_once, ifs=[]), path, False)
+                if qt == T_INT and not (isinstance(it_node, ast.Call) and isinstance(it_node.func, ast.Attribute)):
+                    c0 = ev.ev(it_once, path, False)
                     if isinstance(c0, V) and c0.ty[0] == 'seq':
                         mode = 'index'
                         n_it = S.seq_n(c0)
